@@ -18,7 +18,8 @@ EOf(r) == [i \in 1..Len(r.events) |->
              LET e == r.events[i] IN
              [type |-> e.type, sender |-> e.sender, skey |-> e.skey, membership |-> e.membership,
               plu |-> [u \in Users |-> e.plu[u]], jr |-> e.jr, prev |-> ToSet(e.prev), auth |-> ToSet(e.auth),
-              depth |-> e.depth, ts |-> e.ts, idr |-> e.idr, sha |-> e.sha, rejected |-> FALSE, addl |-> ToSet(e.addl)]]
+              depth |-> e.depth, ts |-> e.ts, idr |-> e.idr, sha |-> e.sha, rejected |-> FALSE, addl |-> ToSet(e.addl),
+              pud |-> e.pud]]
 SetsOf(r) == [k \in 1..Len(r.sets) |-> ToSet(r.sets[k])]
 
 Explains(r) == Resolve(EOf(r), r.ver, SetsOf(r)) = ToSet(r.got)
